@@ -97,7 +97,9 @@ func genC14(t *tape.Tape, tier string) any {
 			cd.Args = []string{[]string{"*.corp.example.com", "www.*.example.com", "glob?.example", "*.example.???", "*corp*", "a.?.c.*", "*.corp.example.com.*", "printer.local", "*.*.*.*.*"}[t.Intn(9)]}
 		case 5:
 			cd.Fn = "isInNet"
-			cd.Args = [][]string{{"10.1.0.0", "255.255.0.0"}, {"192.168.7.0", "255.255.255.0"}, {"10.0.0.0", "255.0.0.0"}, {"172.16.0.0", "255.240.0.0"}, {"10.1.2.3", "255.255.255.255"}}[t.Intn(5)]
+			cd.Args = [][]string{{"10.1.0.0", "255.255.0.0"}, {"192.168.7.0", "255.255.255.0"}, {"10.0.0.0", "255.0.0.0"}, {"172.16.0.0", "255.240.0.0"}, {"10.1.2.3", "255.255.255.255"},
+				// patterns with bits outside their mask (a host or gateway address): only the masked bits count
+				{"10.9.9.9", "255.0.0.0"}, {"192.168.7.77", "255.255.255.0"}, {"172.20.1.1", "255.240.0.0"}}[t.Intn(8)]
 		case 6:
 			cd.Fn = "isResolvable"
 		case 7:
@@ -477,6 +479,14 @@ func runC14(env *core.Env, ci any) {
 	}
 	flipHosts := sortedZoneKeys(c.Flip)
 	afterFlip := make([]c14Answer, len(flipHosts))
+	altHost := make([]c14Answer, len(c.Hosts))
+	altRefs := make([]struct {
+		res string
+		ok  bool
+	}, len(c.Hosts))
+	for i, h := range c.Hosts {
+		altRefs[i].res, altRefs[i].ok = c.refEval(h, "http://decoy.example.org/alt")
+	}
 	// the reference answers of the first two phases, against the zone as it is now
 	type refAns struct {
 		res string
@@ -508,6 +518,14 @@ func runC14(env *core.Env, ci any) {
 		}
 		for i, h := range c.Hosts {
 			sequential[i] = callURL(p2, c.urlFor(i, h))
+		}
+		// the caller may name the host separately from the URL (FindProxyForURL's second argument): the script then
+		// sees that name as `host` and the URL as it is
+		for i, h := range c.Hosts {
+			if i%3 == 0 && i < 12 {
+				s, err := pool.FindProxyForURL(&url.URL{Scheme: "http", Host: "decoy.example.org", Path: "/alt"}, h)
+				altHost[i] = c14Answer{s, err}
+			}
 		}
 		// third phase: evaluations that consult DNS and then fail; the names' DNS answers change; evaluate again
 		if len(flipHosts) > 0 {
@@ -575,6 +593,16 @@ func runC14(env *core.Env, ci any) {
 					}
 				}
 			}
+		}
+		for i, h := range c.Hosts {
+			if i%3 != 0 || i >= 12 {
+				continue
+			}
+			got, ref := altHost[i], altRefs[i]
+			if ref.ok != (got.err == nil) || (ref.ok && got.res != ref.res) {
+				env.Fail("pac-alternate-hostname", c.Entry, "FindProxyForURL(http://decoy.example.org/alt, host %q) returned (%q, %v); the script evaluated with that host and that URL gives (%q, ok=%v)", h, got.res, got.err, ref.res, ref.ok)
+			}
+			env.Probe("evaluated_with_alternate_hostname")
 		}
 		for i, h := range flipHosts {
 			ref, refOK := c.refEval(h, "http://"+h+"/after")
